@@ -388,6 +388,41 @@ pub fn suite_hide(out: &mut Out, tier: &str, rng: &mut Rng) {
                             "lp": bytes_json(&lp), "ap": bytes_json(&rng.bytes(16))}));
         }
     }
+    // every secret length 0..72 (and around 2 x 64) on a two-block value: the MD5 pre-images
+    // (6 + |secret| and 16 + |secret| octets) cross MD5's 55/56 and 64-octet boundaries on the way
+    let mut slens: Vec<usize> = (0..=72).collect();
+    slens.extend([103usize, 104, 111, 112, 119, 120, 121, 127, 128, 129, 255, 256]);
+    for (i, sl) in slens.iter().enumerate() {
+        if tier != "thorough" && *sl > 72 && i % 2 == 0 {
+            continue;
+        }
+        let (a, lp) = avp_for_blocks(rng, 2, false);
+        let secret = rng.bytes(*sl);
+        out.emit(json!({"op": if i % 2 == 0 { "hide" } else { "hide_reveal" }, "v": a, "secret": bytes_json(&secret),
+                        "rv": bytes_json(&rng.bytes(4)), "lp": bytes_json(&lp), "ap": bytes_json(&rng.bytes(16))}));
+    }
+    // runs of calls in which everything is held fixed except one argument (a result must depend on every
+    // argument, and on nothing else -- in particular not on the previous call)
+    for _ in 0..counts(tier, 3, 20) {
+        let ki = rng.below(KINDS.len() as u64) as usize;
+        let a = gen_avp_kind(rng, ki, 10);
+        let rv = rng.bytes(4);
+        let sl = rng.range(1, 20) as usize;
+        let lp = rng.rbytes(0, 18);
+        let ap = rng.bytes(16);
+        for step in 0..6 {
+            let secret = rng.bytes(sl); // same length, different content
+            let (rv2, lp2) = if step % 3 == 2 { (rng.bytes(4), lp.clone()) } else { (rv.clone(), lp.clone()) };
+            out.emit(json!({"op": if step % 2 == 0 { "hide" } else { "hide_reveal" }, "v": a, "secret": bytes_json(&secret),
+                            "rv": bytes_json(&rv2), "lp": bytes_json(&lp2), "ap": bytes_json(&ap)}));
+        }
+        // same secret, different values of the same kind
+        let secret = rng.bytes(sl);
+        for _ in 0..3 {
+            let a2 = gen_avp_kind(rng, ki, 10);
+            out.emit(json!({"op": "hide_reveal", "v": a2, "secret": bytes_json(&secret), "rv": bytes_json(&rv), "lp": bytes_json(&lp), "ap": bytes_json(&ap)}));
+        }
+    }
     // every kind once, no length padding
     for ki in 0..KINDS.len() {
         if tier != "thorough" && ki % 3 != 0 {
@@ -980,6 +1015,53 @@ pub fn suite_fault(out: &mut Out, tier: &str, rng: &mut Rng) {
     }
 }
 
+/// C20, exhaustive over 16-bit offending values: vendor ids, unknown attribute types, unassigned message-type
+/// and error-type codes, offset sizes
+pub fn suite_fault_sweep(out: &mut Out, _tier: &str, rng: &mut Rng) {
+    let ctl = |body: &[u8]| enc_control_raw(flag_word(true, true, true, false, false, 2), None, [7, 8, 9, 10], body);
+    let mt = enc_avp(&gen_message_type(rng));
+    // vendor id of the second AVP: 1..65535
+    {
+        let mut body = mt.clone();
+        let at = 12 + body.len() + 2;
+        body.extend(enc_record(1, 8, 1, 7, &[65, 66]));
+        body.extend(enc_avp(&gen_avp(rng, 6)));
+        out.emit(json!({"op": "fault_sweep", "in": bytes_json(&ctl(&body)), "at": at, "lo": 1, "hi": 65535, "variant": "UnsupportedVendorId",
+                        "samples": [1, 9, 3561, 32768, 65535], "base_value": 0}));
+    }
+    // attribute type of the second AVP: 40..65535 (and 20)
+    for (lo, hi) in [(20u32, 20u32), (40, 65535)] {
+        let mut body = mt.clone();
+        let at = 12 + body.len() + 4;
+        body.extend(enc_record(1, 8, 0, 7, &[65, 66]));
+        out.emit(json!({"op": "fault_sweep", "in": bytes_json(&ctl(&body)), "at": at, "lo": lo, "hi": hi, "variant": "UnknownAvp",
+                        "samples": [lo, hi, (lo + hi) / 2], "base_value": 7}));
+    }
+    // code of a second Message Type AVP: 17..65535, 0, 5, 13
+    for (lo, hi) in [(0u32, 0u32), (5, 5), (13, 13), (17, 65535)] {
+        let mut body = mt.clone();
+        let at = 12 + body.len() + 6;
+        body.extend(enc_record(1, 8, 0, 0, &[0, 6]));
+        out.emit(json!({"op": "fault_sweep", "in": bytes_json(&ctl(&body)), "at": at, "lo": lo, "hi": hi, "variant": "UnknownMessageType",
+                        "samples": [lo, hi, (lo + hi) / 2], "base_value": 6}));
+    }
+    // error type of a Result Code AVP: 9..65535
+    {
+        let mut body = enc_avp(&json!({"k": "MessageType", "f": ["StopControlConnectionNotification"]}));
+        let at = 12 + body.len() + 8;
+        body.extend(enc_record(1, 13, 0, 1, &[0, 1, 0, 6, 104, 105, 33]));
+        out.emit(json!({"op": "fault_sweep", "in": bytes_json(&ctl(&body)), "at": at, "lo": 9, "hi": 65535, "variant": "InvalidResultCodeErrorType",
+                        "samples": [9, 256, 65535], "base_value": 6}));
+    }
+    // offset size of a data message: 4..65535 with 3 octets after the field
+    {
+        let b = enc_data_raw(0, 2, false, None, 5, 6, Some((1, 2)), Some((0, vec![])), &[9, 9, 9]);
+        let at = 2 + 4 + 4;
+        out.emit(json!({"op": "fault_sweep", "in": bytes_json(&b), "at": at, "lo": 4, "hi": 65535, "variant": "InvalidOffset",
+                        "samples": [4, 255, 256, 65535], "base_value": 0}));
+    }
+}
+
 /// C19: the same calls from 16 threads at once
 pub fn suite_threads(out: &mut Out, tier: &str, rng: &mut Rng) {
     for _ in 0..counts(tier, 2, 40) {
@@ -1308,6 +1390,12 @@ pub fn suite_many_avps(out: &mut Out, tier: &str, rng: &mut Rng) {
             // the same message at a non-zero writer position, alone and as the second of two
             out.emit(json!({"op": "encode", "kind": "msg", "v": m, "prefix": bytes_json(&rng.rbytes(1, 40)), "wr": if variant == 0 { "mon" } else { "vec" }}));
             out.emit(json!({"op": "encode_seq", "items": [{"kind": "msg", "v": gen_control(rng, 2, 8)}, {"kind": "msg", "v": m}]}));
+            // the same records as a bare list: the whole against the parts (C08)
+            if n <= 600 {
+                let recs_all: Vec<Value> = m["avps"].as_array().unwrap().iter().map(|a| bytes_json(&enc_avp(a))).collect();
+                out.emit(json!({"op": "avps_concat", "recs": recs_all}));
+                out.emit(json!({"op": "decode_avps", "in": bytes_json(&wire[12..]), "rdr": "slice"}));
+            }
             // one bad record at a particular position among many
             let recs: Vec<Vec<u8>> = m["avps"].as_array().unwrap().iter().map(enc_avp).collect();
             let mut recs2 = recs.clone();
